@@ -5,7 +5,7 @@ turn real `datetime` / Julian-date floats into the integers the trace specificat
 """
 from __future__ import annotations
 
-from datetime import date, datetime, timedelta
+from datetime import date, datetime
 
 from .. import tlc
 
@@ -43,9 +43,12 @@ def run_walk(workdir, workers):
     return res, days
 
 
-def run_seconds(cfg, workdir, workers):
-    """Calendar.tla second ticks around boundary instants: list of TICK transitions."""
-    res = spec_fail(tlc.run_tlc("Calendar", cfg, workdir, workers=workers, timeout=1500), f"Calendar.tla {cfg}")
+def run_seconds(cfg, workdir, workers=1):
+    """Calendar.tla second ticks around boundary instants: list of TICK transitions.
+
+    These configurations bound the exploration with TLCGet("level"); only a single worker
+    explores strictly breadth first, so they run with one worker to stay deterministic."""
+    res = spec_fail(tlc.run_tlc("Calendar", cfg, workdir, workers=1, timeout=2400), f"Calendar.tla {cfg}")
     ticks = sorted(res.tagged("TICK"), key=lambda r: (r["dn"], r["to"][3], r["from"][3]))
     if not ticks:
         raise tlc.MachineryError(f"Calendar.tla {cfg} emitted no ticks")
